@@ -3,6 +3,7 @@ package main
 // Harness primitives (v*) and models of library functions.
 
 import (
+	"bytes"
 	"encoding/json"
 	"fmt"
 	"go/types"
@@ -400,6 +401,7 @@ func registerIntrinsics(e *Engine) {
 	registerCloneModels(e)
 	registerStrconvModels(e)
 	registerTrimModels(e)
+	registerValidateModels(e)
 }
 
 // ---------------------------------------------------------------------------
@@ -684,14 +686,20 @@ func registerLibModels(e *Engine) {
 		}
 		target := a[1].(*IfaceVal)
 		pt, ok := target.T.(*types.Pointer)
-		if !ok || !isStringType(pt.Elem()) {
+		if !ok {
 			panic(unsupported("json.Unmarshal into " + target.T.String()))
 		}
-		var sres string
-		if err := json.Unmarshal(buf, &sres); err != nil {
+		var raw interface{}
+		dec := json.NewDecoder(bytes.NewReader(buf))
+		dec.UseNumber()
+		if err := dec.Decode(&raw); err != nil {
 			return x.errorValue(err.Error())
 		}
-		x.deref(target.V.(*PtrVal)).Store(mkStr(sres))
+		v, okv := jsonToValue(raw, pt.Elem())
+		if !okv {
+			panic(unsupported("json.Unmarshal into " + target.T.String()))
+		}
+		x.deref(target.V.(*PtrVal)).Store(v)
 		return nilIface
 	})
 	always("log.Fatalf", func(x *Exec, a []Value) Value { panic(&pathEnd{"log.Fatalf"}) })
@@ -755,15 +763,20 @@ func registerLibModels(e *Engine) {
 		}
 		switch t := iv.V.(type) {
 		case *Term:
+			if t.S.K == KFP {
+				return tFCmp(OpFEq, t, zeroOfSort(t.S))
+			}
 			return tEq(t, zeroOfSort(t.S))
 		case *StrVal:
 			return strEq(t, mkStr(""))
 		case *PtrVal:
 			return t.Nil
+		case *StructVal:
+			return x.valueIsZero(t, iv.T)
 		case *SliceVal:
-			return mkBool(t.Len == 0)
+			return mkBool(t.Nil) // swag.IsZero: nil slices and maps only; empty ones are values
 		case *MapVal:
-			return mkBool(t.M == nil || len(t.M.E) == 0)
+			return mkBool(t.M == nil)
 		}
 		panic(unsupported("swag.IsZero on " + iv.T.String()))
 	})
@@ -1086,6 +1099,68 @@ func (x *Exec) deepEqual(a, b Value) *Term {
 
 var _ = math.Abs
 var _ = sort.Strings
+
+// jsonToValue: a decoded concrete JSON value as a value of Go type t (scalars and slices of them)
+func jsonToValue(raw interface{}, t types.Type) (Value, bool) {
+	switch u := t.Underlying().(type) {
+	case *types.Basic:
+		switch {
+		case u.Info()&types.IsString != 0:
+			s, ok := raw.(string)
+			if !ok {
+				return nil, false
+			}
+			return mkStr(s), true
+		case u.Info()&types.IsBoolean != 0:
+			b, ok := raw.(bool)
+			if !ok {
+				return nil, false
+			}
+			return mkBool(b), true
+		case u.Info()&types.IsInteger != 0:
+			n, ok := raw.(json.Number)
+			if !ok {
+				return nil, false
+			}
+			w, _ := intWidth(u)
+			if i, err := strconv.ParseInt(string(n), 10, 64); err == nil {
+				return mkBV(w, uint64(i)), true
+			}
+			if ui, err := strconv.ParseUint(string(n), 10, 64); err == nil {
+				return mkBV(w, ui), true
+			}
+			return nil, false
+		case u.Info()&types.IsFloat != 0:
+			n, ok := raw.(json.Number)
+			if !ok {
+				return nil, false
+			}
+			f, err := n.Float64()
+			if err != nil {
+				return nil, false
+			}
+			if u.Kind() == types.Float32 {
+				return mkFP(SF32, float64(float32(f))), true
+			}
+			return mkFP(SF64, f), true
+		}
+	case *types.Slice:
+		l, ok := raw.([]interface{})
+		if !ok {
+			return nil, false
+		}
+		vs := make([]Value, len(l))
+		for i, e := range l {
+			v, ok := jsonToValue(e, u.Elem())
+			if !ok {
+				return nil, false
+			}
+			vs[i] = v
+		}
+		return mkSlice(vs), true
+	}
+	return nil, false
+}
 
 // makeDocument builds a loads.Document around a *spec.Swagger (Analyzer = analysis.New(spec))
 func (x *Exec) makeDocument(sw Value) Value {
